@@ -27,13 +27,13 @@ import (
 )
 
 const (
-	cpuCap      = 2 * time.Second  // CPU time one case may burn in the child (a starved child burns none)
-	wallCap     = 30 * time.Second // wall-clock backstop of one case in the child
-	heapRunaway = 96 << 20         // a match over <= 4 tokens that holds this much heap is not going to return
-	childStack  = 8 << 20          // goroutine stack limit of the child: unbounded recursion dies quickly
+	cpuCap      = 2 * time.Second   // CPU time one case may burn in the child (a starved child burns none)
+	wallCap     = 300 * time.Second // wall-clock backstop of one case in the child
+	heapRunaway = 96 << 20          // a match over <= 4 tokens that holds this much heap is not going to return
+	childStack  = 8 << 20           // goroutine stack limit of the child: unbounded recursion dies quickly
 	exitTimeout = 41
 	exitRunaway = 42
-	parentGrace = 90 * time.Second // parent-side silence cap (the child's own monitor fires long before)
+	parentGrace = 600 * time.Second // parent-side silence cap (the child's own monitor fires long before)
 	runnerChunk = 4000
 	runnerProcs = 4
 )
